@@ -18,7 +18,7 @@ RULE = ("seeded invocations from every rejection class (no source; a missing sou
 ASSUMPTIONS = ["a --glob pattern that matches nothing is not claimed as a rejection class (the code documents it as a FIXME and the statement speaks of a missing source)"]
 
 CLASSES = ["no-source", "missing-source", "dir-without-r", "multi-to-absent", "multi-to-file", "dir-onto-file-dest", "dir-onto-file-mapped",
-           "same-as-dest", "noclobber-force", "T-with-target-directory", "bad-driver", "bad-reflink", "bad-backup", "bad-glob", "bad-blocksize", "glob-multi-to-nondir", "target-directory-nondir", "bad-workers", "dangling-source", "dirlink-without-r"]
+           "same-as-dest", "noclobber-force", "T-with-target-directory", "multi-with-T", "bad-driver", "bad-reflink", "bad-backup", "bad-glob", "bad-blocksize", "glob-multi-to-nondir", "target-directory-nondir", "bad-workers", "dangling-source", "dirlink-without-r"]
 
 
 def gen_cases(tier, seed):
@@ -70,6 +70,13 @@ def gen_cases(tier, seed):
                 spec.append({"p": "extra", "k": "f", "size": 4, "seed": 2, "segs": None})
                 srcs = ["v0", "extra"]
             dstate = "absent"
+        elif cls == "multi-with-T":
+            # -T says "the destination is not a directory to copy into": with several sources that leaves every one of them mapped
+            # onto the same path, whatever is there (cp: "extra operand")
+            if len(set(srcs)) < 2:
+                spec.append({"p": "extra", "k": "f", "size": 4, "seed": 2, "segs": None})
+                srcs = ["v0", "extra"]
+            opts += ["-T"]
         elif cls == "multi-to-file":
             if len(srcs) < 2:
                 spec.append({"p": "extra", "k": "f", "size": 4, "seed": 2, "segs": None})
